@@ -420,6 +420,7 @@ def run(prog, rep, tier):
     rep.rule('SITE-rmw-order', 'a one-site read-modify-write through get_B/set_B is not '
              'separated by a write to another (possibly identical) site')
     check_rmw_order(prog, rep)
+    rep.rule('FORM-zero-sv', 'negative powers of the singular values keep exact zeros (masked power)')
     rep.rule('FORM-scale-exponent', 'case analysis of _scale_axis_B over the values form_diff '
              'is compared with: the power of S applied equals form_diff')
     check_scale_exponent(prog, rep)
@@ -530,11 +531,46 @@ def check_rmw_order(prog, rep):
 
 
 # ------------------------------------------------------------------ FORM-scale-exponent
-def _s_exponent(e, sname):
+def _power_helpers(m):
+    """module-level functions h(a, p) that return a**p entry-wise (possibly only on a mask of
+    entries, the others staying zero): their body raises (a subscript of) the first parameter to
+    the second one and nothing else is raised to a power"""
+    out = set()
+    for q, g in m.functions.items():
+        if '.' in q:
+            continue
+        ps = params(g)
+        if len(ps) != 2:
+            continue
+        pows = [b for b in ast.walk(g) if isinstance(b, ast.BinOp) and isinstance(b.op, ast.Pow)]
+        if len(pows) == 1 and unparse(pows[0].right) == ps[1]:
+            base = pows[0].left
+            while isinstance(base, ast.Subscript):
+                base = base.value
+            if isinstance(base, ast.Name) and base.id == ps[0]:
+                out.add(q)
+    return out
+
+
+def _s_exponent(e, sname, helpers=(), pname=None, pvalue=None):
     """exponent of the array `sname` in the expression e (None: not a pure power)"""
     from fractions import Fraction as F
     if isinstance(e, ast.Name) and e.id == sname:
         return F(1)
+    if isinstance(e, ast.Call) and isinstance(e.func, ast.Name) and e.func.id in helpers and \
+            len(e.args) + len(e.keywords) == 2 and e.args:
+        x = _s_exponent(e.args[0], sname, helpers, pname, pvalue)
+        k = e.args[1] if len(e.args) == 2 else e.keywords[0].value
+        if isinstance(k, ast.Name) and k.id == pname and pvalue is not None:
+            kv = pvalue
+        elif isinstance(k, ast.Constant) and isinstance(k.value, (int, float)):
+            kv = k.value
+        elif isinstance(k, ast.UnaryOp) and isinstance(k.op, ast.USub) and isinstance(
+                k.operand, ast.Constant):
+            kv = -k.operand.value
+        else:
+            return None
+        return None if x is None else x * F(kv).limit_denominator(64)
     if isinstance(e, ast.BinOp) and isinstance(e.op, ast.Div) and isinstance(
             e.left, ast.Constant) and e.left.value in (1, 1.0):
         x = _s_exponent(e.right, sname)
@@ -585,12 +621,32 @@ def check_scale_exponent(prog, rep):
                 arg = p.env[arg.id]
             elif isinstance(arg, ast.Name) and arg.id != sname:
                 arg = None
-            got = _s_exponent(arg, sname) if arg is not None else None
+            got = _s_exponent(arg, sname, _power_helpers(m), dname, v) if arg is not None else None
         else:
             got = None
         n += 1
         rep.instance('FORM-scale-exponent', {'form_diff': v, 'returns': unparse(val),
                                              'exponent_of_S': str(got)})
+        if v < 0 and got is not None:
+            # FORM-zero-sv: enlarge_chi adds singular values that are exactly zero; a negative
+            # power must leave them zero (masked power), else the conversion yields inf * 0 = nan
+            helpers = _power_helpers(m)
+            masked = False
+            if isinstance(arg, ast.Call) and isinstance(arg.func, ast.Name) and \
+                    arg.func.id in helpers:
+                g = m.functions[arg.func.id]
+                pw = [b for b in ast.walk(g) if isinstance(b, ast.BinOp) and
+                      isinstance(b.op, ast.Pow)][0]
+                masked = isinstance(pw.left, ast.Subscript) and any(
+                    isinstance(c, ast.Compare) and isinstance(c.ops[0], (ast.NotEq, ast.Gt))
+                    for c in ast.walk(g))
+            rep.instance('FORM-zero-sv', {'form_diff': v, 'masked_power': masked})
+            if not masked:
+                rep.violation('FORM-zero-sv', m, 'MPS._scale_axis_B', 'unmasked-negative-power:%s' % v,
+                              'for form_diff = %s the singular values are raised to a negative '
+                              'power without masking exact zeros (`%s`): after enlarge_chi (which '
+                              'adds zeros \'representing the same state\') B -> A conversions give '
+                              'nan, e.g. psi.overlap(psi)' % (v, unparse(arg)[:50]), f.lineno)
         if got is None:
             raise AnalysisError('_scale_axis_B: cannot read the power of S for form_diff=%s '
                                 '(`%s`)' % (v, unparse(val)))
